@@ -102,6 +102,12 @@ theorem SimInv.stepOp (H : SimInv I SendOk) {x : Sim} (o : Op) (ho : OpOkFor Sen
   | inject p cs aw =>
     simp only [Jm.stepOp] at hy
     exact injectAll_ind (fun z => I z.st) p cs aw (fun z s' hz hs' => H.turns z.st hz s' hs') (fun z hz => H.doSend p cs aw ho hz) 50 h y hy
+  | clone w =>
+    simp only [Jm.stepOp, List.mem_singleton] at hy; subst hy
+    unfold cloneWaiter
+    split
+    · exact H.newWaiter _ _ _ h
+    · exact H.emit _ _ h
 
 /-- every state of every run of every script -/
 theorem SimInv.runOps (H : SimInv I SendOk) (ops : List Op) (hok : ∀ o ∈ ops, OpOkFor SendOk o) {x : Sim} (h : I x.st) :
